@@ -55,8 +55,17 @@ def coq_queue(files, dirs):
     return f"(mkQ {coq_qfiles(files)} {coq_strs(sorted(dirs))})"
 
 
+def coq_fsent(e):
+    """'dir' | hash identity | ["link", normalised root-relative target]"""
+    if e == "dir":
+        return "FDir"
+    if isinstance(e, (list, tuple)):
+        return f"(FLink {coq_str(e[1])})"
+    return f"(FFile {e})"
+
+
 def coq_fs(fs):
-    return coq_list([f"({coq_str(p)}, {'FDir' if e == 'dir' else f'(FFile {e})'})" for p, e in sorted(fs.items())])
+    return coq_list([f"({coq_str(p)}, {coq_fsent(e)})" for p, e in sorted(fs.items())])
 
 
 # ---------------------------------------------------------------------------------------------
